@@ -240,6 +240,11 @@ func (c *Ctx) c12Cleanup() {
 		if lastScan >= 0 && firstMeasure >= 0 && firstMeasure < lastScan {
 			r.Bad("R12.2", "Trait.invokeCleanup", "measured-before-scan", c.Pos(p.Events[firstMeasure].Pos), "limits are measured before the expired-entries scan of the same cycle: entries about to be purged count towards the breach and the fraction", shortTrace(p))
 		}
+		// the fraction is retargeted exactly when the count limit is breached: an evicting path must know which of the two holds (a cycle
+		// that stops looking once a memory limit is found breached evicts EvictFraction and leaves the cache above CountSoftLimit)
+		if !ov["CountSoftLimit"] && !cleared["CountSoftLimit"] {
+			r.Bad("R12.2", "Trait.invokeCleanup", "count-breach-not-evaluated", c.Pos(ev.Pos), "the cycle evicts on a path that establishes neither a count breach nor its absence (CountSoftLimit = 0 or Len() ≤ limit): with a memory limit and the count limit exceeded together only EvictFraction is evicted and the count stays above the limit", shortTrace(p))
+		}
 		// R12.2 fraction
 		var f *pw.Val
 		var L *pw.Val
